@@ -229,7 +229,8 @@ def _ctparse(
         # get subject by extracting regex stack from raw text
         regex_matches = [match.prod for match in stack]
         regex_matches = [product.match.captures() for tuple in regex_matches for product in tuple]
-        regex_matches = [match.split() for i in regex_matches for match in i]
+        # split the matched text the way the text itself is split below ("2-3-2021")
+        regex_matches = [re.split(r'[\s-]+', match) for i in regex_matches for match in i]
         regex_matches = list(chain.from_iterable(regex_matches))
 
         raw = re.split(r'[\s-]+', txt)
